@@ -121,6 +121,14 @@ func raceFiles(base, cvcFile string, timeoutS, seed int, both bool) SolveResult 
 				firstDef = &r
 				if !both {
 					cancel()
+				} else {
+					// cross-check mode: give the other solvers a grace period (30 s or three times the winner's time), not
+					// their whole budget, to confirm or contradict the answer
+					grace := 30 * time.Second
+					if g := time.Duration(3*r.t*float64(time.Second)); g > grace {
+						grace = g
+					}
+					time.AfterFunc(grace, cancel)
 				}
 			} else if firstDef.status != r.status {
 				res.Output += fmt.Sprintf("SOLVER DISAGREEMENT: %s says %s, %s says %s\n", firstDef.name, firstDef.status, r.name, r.status)
